@@ -84,7 +84,7 @@ def native_validate(ck, results, per_job=4):
                     ck.machinery.append('NATIVE-VALIDATION mismatch %s%s: native rc=%d %s reach=%s, executor returned normally reach=%s' % (r.entry, r.params, rc, desc, nat_reach, smp.get('reached')))
     return bad
 
-def run(prop, assert_filter, gens=(2,)):
+def run(prop, assert_filter, gens=(2,), members=False):
     ck = Check(prop)
     ck.assert_filter = assert_filter
     jobs = []
@@ -97,6 +97,27 @@ def run(prop, assert_filter, gens=(2,)):
             jobs.append(dict(harness=HARNESS[gen], ll=ll, entry='h_crates', params=pp, models=['zlib_identity', 'rel_g%d_s%d' % (gen, p['schema'])], known=ck.known,
                              must_reach=['prefix-built', 'checked'], eng_opts=eo, replay='native', time_limit=1500, allow_throw='none', nsamples=4, max_bugs=12,
                              assert_filter=assert_filter, label=p['shape']))
+    if members:
+        # the entry-order clause (playlist entries are listed in the order added) is asserted by the membership harness
+        import c08
+        for gen in gens:
+            if gen != 2: continue
+            ll = driver.compile_ir(c08.HARNESS[gen]); driver.load_module(ll)
+            ck.native_spec[c08.HARNESS[gen]] = {'public': True}
+            for p in c08.configs(gen):
+                jobs.append(dict(harness=c08.HARNESS[gen], ll=ll, entry='h_members', params=dict(p), models=['zlib_identity', 'rel_g%d_s%d' % (gen, p['schema'])], known=ck.known,
+                                 must_reach=['prefix-built', 'checked'], eng_opts=eo, replay='native', time_limit=1500, allow_throw='none', nsamples=2, max_bugs=12,
+                                 assert_filter=assert_filter, label='members:' + p['shape']))
+        # table-level playlist-entity listing with arbitrary values in the "need not be populated" row fields
+        if 2 in gens:
+            ll = driver.compile_ir('h_entities_v2.cpp'); driver.load_module(ll)
+            ck.native_spec['h_entities_v2.cpp'] = {'public': True}
+            for sc in ([6, 0] if TIER == 'quick' else range(7)):
+                for n, pattern in ((4, 0b0110), (5, 0b01010)) if TIER == 'quick' else ((4, 0b0110), (5, 0b01010), (6, 0b000111), (3, 0)):
+                    for then in (0, 1, 2):
+                        jobs.append(dict(harness='h_entities_v2.cpp', ll=ll, entry='h_entities', params=dict(gen=2, schema=sc, n=n, pattern=pattern, then=then, nsym=0, shape='entities'),
+                                         models=['zlib_identity', 'rel_g2_s%d' % sc], known=ck.known, must_reach=['added', 'checked'], eng_opts=eo, replay='native', time_limit=600,
+                                         allow_throw='none', nsamples=1, max_bugs=6, assert_filter=assert_filter, label='entities'))
     if os.environ.get('VERIF_GEN'): jobs = [j for j in jobs if str(j['params']['gen']) == os.environ['VERIF_GEN']]
     jobs.sort(key=lambda j: -j['params']['nsym'])
     res = run_jobs(jobs)
